@@ -282,16 +282,6 @@ Definition retarget_syms (syms : list (nat * asym)) (old new : nat) (at_end : bo
 Definition has_syms (syms : list (nat * asym)) (b : nat) : bool :=
   existsb (fun kv => match sy_ref (snd kv) with RBlock x => Nat.eqb x b | _ => false end) syms.
 
-(* groups of consecutive blocks at one offset: the last one is the main block *)
-Fixpoint group_by_off (bs : list ablock) (cur : list ablock) : list (list ablock) :=
-  match bs with
-  | [] => match cur with [] => [] | _ => [rev cur] end
-  | b :: t => match cur with
-              | c :: _ => if ab_off c =? ab_off b then group_by_off t (b :: cur) else rev cur :: group_by_off t [b]
-              | [] => group_by_off t [b]
-              end
-  end.
-
 Definition remove_extra (s : astate) (extras : list nat) (main extra : nat) : astate :=
   let ins := filter (fun e => aref_eqb (ae_tgt e) (RBlock extra)) (a_cfg s) in
   let c := fold_left (fun c e => let c := cfg_discard e c in
@@ -300,21 +290,27 @@ Definition remove_extra (s : astate) (extras : list nat) (main extra : nat) : as
   let c := filter (fun e => negb (Nat.eqb (ae_src e) extra)) c in
   mk_astate (a_sects s) (a_cur s) (retarget_syms (a_syms s) extra main false) c (a_code s) (a_types s) (a_proxies s) (a_next s).
 
+(* itertools.groupby(section.blocks, key=offset): a maximal run of blocks at one offset is a group; its last block is the main
+   block, the others (empty) are folded into it.  `extras` are the blocks of the current run seen so far. *)
+Fixpoint remove_empty_go (s : astate) (al : list (nat * Z)) (bs : list ablock) (extras : list nat) : astate * list (nat * Z) * list ablock :=
+  match bs with
+  | [] => (s, al, [])
+  | b :: t =>
+      let same_as_next := match t with c :: _ => ab_off c =? ab_off b | [] => false end in
+      if same_as_next then remove_empty_go s al t (extras ++ [ab_id b])
+      else
+        let s := fold_left (fun s e => remove_extra s extras (ab_id b) e) extras s in
+        let maxa := fold_left (fun m e => match aget e al with Some a => Z.max m a | None => m end) extras
+                              (match aget (ab_id b) al with Some a => a | None => 0 end) in
+        let al := fold_left (fun al e => adel e al) extras al in
+        let al := if maxa =? 0 then al else aset (ab_id b) maxa al in
+        let '(s, al, out) := remove_empty_go s al t [] in
+        (s, al, b :: out)
+  end.
+
 Definition remove_empty_blocks (s : astate) (x : asect) : astate * asect :=
-  fold_left (fun acc grp =>
-               let '(s, x) := acc in
-               match rev grp with
-               | main :: rextras =>
-                   let extras := map ab_id (rev rextras) in
-                   let s := fold_left (fun s e => remove_extra s extras (ab_id main) e) extras s in
-                   let maxa := fold_left (fun m e => match aget e (as_align x) with Some a => Z.max m a | None => m end) extras
-                                         (match aget (ab_id main) (as_align x) with Some a => a | None => 0 end) in
-                   let al := fold_left (fun al e => adel e al) extras (as_align x) in
-                   let al := if maxa =? 0 then al else aset (ab_id main) maxa al in
-                   (s, mk_asect (as_name x) (as_exec x) (as_len x) (as_blocks x ++ [main]) (as_symex x) (as_sizes x) al)
-               | [] => acc
-               end)
-            (group_by_off (as_blocks x) []) (s, mk_asect (as_name x) (as_exec x) (as_len x) [] (as_symex x) (as_sizes x) (as_align x)).
+  let '(s, al, out) := remove_empty_go s (as_align x) (as_blocks x) [] in
+  (s, mk_asect (as_name x) (as_exec x) (as_len x) out (as_symex x) (as_sizes x) al).
 
 Definition convert_data_blocks (t : atarget) (s : astate) (x : asect) : result (astate * asect) :=
   fold_left (fun acc ib =>
